@@ -23,7 +23,10 @@ EXTRA = {
     "C07": [("gapic/schema/wrappers.py", "Method._client_output")],
     "C19": [("gapic/schema/wrappers.py", "MessageType.recursive_field_types"), ("gapic/schema/wrappers.py", "MessageType.recursive_resource_fields"),
             ("gapic/schema/wrappers.py", "CommonResource.build"), ("gapic/schema/wrappers.py", "CommonResource.message_type")],
-    "C01": [("gapic/schema/api.py", "API.subpackages")],
+    "C01": [("gapic/schema/api.py", "API.subpackages"), ("gapic/utils/code.py", "empty"), ("gapic/schema/wrappers.py", "Service.module_name"),
+            ("gapic/schema/wrappers.py", "Method.paged_result_field"), ("gapic/schema/wrappers.py", "Method.client_output"),
+            ("gapic/schema/wrappers.py", "Method.flat_ref_types"), ("gapic/generator/generator.py", "Generator._get_filename"),
+            ("gapic/schema/api.py", "Proto.python_modules"), ("gapic/samplegen/samplegen.py", "_get_sample_imports")],
     "C12": [("gapic/schema/wrappers.py", "Service.with_context"), ("gapic/schema/wrappers.py", "Method.with_context"),
             ("gapic/schema/wrappers.py", "Method.flattened_fields")],
     "C02": [("gapic/schema/api.py", "API.subpackages")],
